@@ -582,3 +582,62 @@ func StripNot(v ssa.Value) (ssa.Value, bool) {
 		neg = !neg
 	}
 }
+
+// RetAlt is one way a function returns: the returned values with merges (phis) at the exit resolved to the value of
+// one incoming arm, and the branch outcomes that hold on that arm. "if c { return a }; return b" and
+// "var r = b; if c { r = a }; return r" yield the same alternatives.
+type RetAlt struct {
+	Ret     *ssa.Return
+	Results []ssa.Value
+	Guards  []Guard
+	Block   *ssa.BasicBlock // the block the arm comes from (for positions)
+}
+
+// ReturnAlts enumerates the return alternatives of fn.
+func ReturnAlts(fn *ssa.Function) []RetAlt {
+	var out []RetAlt
+	for _, b := range fn.Blocks {
+		ret, ok := b.Instrs[len(b.Instrs)-1].(*ssa.Return)
+		if !ok {
+			continue
+		}
+		expandAlt(RetAlt{Ret: ret, Results: append([]ssa.Value{}, ret.Results...), Guards: BlockGuards(b), Block: b}, b, 0, &out)
+	}
+	return out
+}
+
+func expandAlt(a RetAlt, at *ssa.BasicBlock, depth int, out *[]RetAlt) {
+	// phis of block `at` among the results?
+	has := false
+	for _, r := range a.Results {
+		if p, ok := r.(*ssa.Phi); ok && p.Block() == at {
+			has = true
+		}
+	}
+	if !has || depth > 3 || len(at.Preds) == 0 {
+		*out = append(*out, a)
+		return
+	}
+	for i, pred := range at.Preds {
+		n := RetAlt{Ret: a.Ret, Block: pred}
+		for _, r := range a.Results {
+			if p, ok := r.(*ssa.Phi); ok && p.Block() == at {
+				n.Results = append(n.Results, p.Edges[i])
+			} else {
+				n.Results = append(n.Results, r)
+			}
+		}
+		n.Guards = append(n.Guards, a.Guards...)
+		n.Guards = append(n.Guards, BlockGuards(pred)...)
+		if pi, ok := pred.Instrs[len(pred.Instrs)-1].(*ssa.If); ok && len(pred.Succs) == 2 && pred.Succs[0] != pred.Succs[1] {
+			pc, neg := StripNot(pi.Cond)
+			t := pred.Succs[0] == at
+			if neg {
+				t = !t
+			}
+			n.Guards = append(n.Guards, Guard{Cond: pc, Truth: t, If: pi})
+			n.Guards = append(n.Guards, threadPhi(pc, t, pi, 1)...)
+		}
+		expandAlt(n, pred, depth+1, out)
+	}
+}
